@@ -348,6 +348,14 @@ class Normalizer:
         if n == 0:
             return None
         x = a[0]
+        # ---- operator traits on primitives (`&a & b` on references goes through the trait impl): the operator itself
+        _OPS = {"core::ops::bit::BitAnd::bitand": "BitAnd", "core::ops::bit::BitOr::bitor": "BitOr", "core::ops::bit::BitXor::bitxor": "BitXor",
+                "core::ops::arith::Add::add": "Add", "core::ops::arith::Sub::sub": "Sub", "core::ops::arith::Mul::mul": "Mul",
+                "core::ops::bit::Shl::shl": "Shl", "core::ops::bit::Shr::shr": "Shr"}
+        if callee in _OPS and n == 2 and _OPS[callee] in ("BitAnd", "BitOr", "BitXor"):
+            return ("binop", _OPS[callee], a[0], a[1])
+        if callee == "core::ops::bit::Not::not" and n == 1:
+            return ("unop", "Not", a[0])
         # ---- an Option used as a zero-or-one element stream: `o.iter().flat_map(f)` is `o.map(f).into_iter().flatten()`
         if is_("Iterator::flat_map") and n == 2:
             return self.norm(("call", "core::iter::traits::iterator::Iterator::flatten", (("call", "core::iter::traits::iterator::Iterator::map", (a[0], a[1]), 0),), 0), depth + 1)
